@@ -17,7 +17,8 @@ fn gen_frame(r: &mut Rng, out: &mut Vec<u8>) {
     }
     if r.below(3) == 0 {
         const P: [&[u8]; 6] = [b"", b"abc", b"OK\n", b"\n", b"list_OK\nOK\n", b"\x00\xff"];
-        let p: Vec<u8> = if r.below(8) == 0 { vec![b'z'; 3000 + r.below(6000)] } else { P[r.below(P.len())].to_vec() };
+        // one payload in 24 is larger than 64 KiB (the receive buffer doubles its way past 128 KiB: code that looks at the buffer's capacity is reached)
+        let p: Vec<u8> = if r.below(8) == 0 { vec![b'z'; 3000 + r.below(6000)] } else if r.below(24) == 0 { vec![b'Z'; 70_000 + r.below(140_000)] } else { P[r.below(P.len())].to_vec() };
         out.extend_from_slice(format!("binary: {}\n", p.len()).as_bytes()); out.extend_from_slice(&p); out.push(b'\n');
     }
 }
@@ -55,11 +56,13 @@ fn main() {
     let mut distinct = std::collections::HashSet::new();
     for case in 0..n {
         let s = gen_stream(&mut r);
-        let mut cuts: Vec<usize> = match r.below(5) {
+        let huge = s.len() > 60_000;
+        let mut cuts: Vec<usize> = match (if huge { [0usize, 2, 3, 4, 5][r.below(5)] } else { r.below(5) }) {
             0 => vec![],
             1 => (1..s.len()).collect(),                                   // one byte at a time
             2 => vec![r.below(s.len() + 1)],
             3 => (0..r.below(6)).map(|_| r.below(s.len() + 1)).collect(),
+            5 => { let k = s.len().saturating_sub(1 + r.below(40)); vec![k] }      // everything but the last few bytes in one segment
             _ => vec![4096usize.min(s.len()), 8192usize.min(s.len())],
         };
         cuts.sort(); cuts.dedup();
@@ -68,7 +71,7 @@ fn main() {
         let expect = ref_outcomes(&s);
         let m = expect.len() + 2;
         let b = real_blocking(&s, &cuts, m);
-        let y = if case % 4 == 0 { real_async(&s, &cuts, m) } else { Ok(expect.clone()) };
+        let y = if case % 4 == 0 || huge { real_async(&s, &cuts, m) } else { Ok(expect.clone()) };
         if b.as_ref() != Ok(&expect) || y.as_ref() != Ok(&expect) {
             let y = real_async(&s, &cuts, m);
             let (bad, other) = if b.as_ref() != Ok(&expect) { (&b, &y) } else { (&y, &b) };
